@@ -541,6 +541,12 @@ func replay(t *testing.T, h Harness, path string) {
 	for _, l := range o.Trace {
 		fmt.Println("  ", l)
 	}
+	for k := range o.Probes {
+		if strings.HasPrefix(k, "observed-panic-in-dependency/") {
+			fmt.Printf("REPLAY-OBSERVATION %s (a panic inside a dependency: counted, not a violation)\n%s\n", k, firstLines(o.Sched.Panic, 30))
+			return
+		}
+	}
 	if hasClass(o, rf.Class) {
 		for _, v := range o.Violations {
 			if v.Class == rf.Class {
